@@ -13,10 +13,12 @@ import itertools
 IDS = ['#r', '#s', '#t']
 OPTION_MENU = [
     [['lit', 'a']], [['pat', 'x']], [['pat', 'y']], [['fn', '$eq', [['lit', 'a']]]], [['fn', '$eq', [['pat', 'x']]]],
-    [['lit', 'a'], ['lit', 'b']], [['lit', 'b'], ['pat', 'x']],
+    [['lit', 'a'], ['lit', 'b']], [['lit', 'b'], ['pat', 'x']], [['pat', 'x'], ['lit', 'b']], [['pat', 'x'], ['pat', 'y']],
+    [['pat', 'y'], ['fn', '$eq', [['lit', 'a']]]],
 ]
 OPTION_MENU_SMALL = [[['lit', 'a']], [['pat', 'x']], [['lit', 'a'], ['lit', 'b']], [['fn', '$eq', [['pat', 'y']]]],
-                     [['fn', '$eq', [['pat', 'x']]]], [['fn', '$eq', [['lit', 'a']]]]]
+                     [['fn', '$eq', [['pat', 'x']]]], [['fn', '$eq', [['lit', 'a']]]], [['pat', 'x'], ['lit', 'b']],
+                     [['pat', 'x'], ['pat', 'y']]]
 
 
 def names(refs, max_len, elems=None):
